@@ -31,31 +31,40 @@ from ..core import Ctx, CORPUS
 
 ID = "C16"
 LEVEL = "proof"
-STRENGTH = "partial"   # valid names, distinct names and id-level isolation are proved only under named guards (open findings)
+STRENGTH = "partial"   # distinct names and id-level isolation are proved only under named guards (open findings F6b, F6d, F6e, F6g); valid names are FULL since kopf c2cffd8
 ENGINES = ["lean-model", "purediff"]
 LEVEL_TEXT = (
-    "PARTIAL: three clauses of the property are false of the code and are proved only under exact guards. "
+    "PARTIAL: two clauses of the property are false of the code and are proved only under exact guards. "
     "Lean theorems for ALL handler ids / records / bodies / accumulated patches about an executable model of key forming "
-    "(safe key, v1/v2 cut, v1_fits, hash suffix as a parameter, ReplicaSet-of-Deployment marking) and of store/fetch/purge/touch/clear "
-    "of the annotations and status storages, of arbitrary Multi storage TREES (proved equal to their flattening) and of the diff-base "
-    "storages over RFC 7386 merge-patches. UNGUARDED (modulo None-valued record keys, which the code drops, a writing head leaf, and "
-    "the covering hypothesis of the status storage = status_cover_witness): round trip (roundtrip_ann/_status/_status_fresh/_smart/"
-    "_diffbase/_diffbase_status/_multi/_multi_apart/_multi_status_head/_dmulti/_dmulti_status_head), complete purge "
+    "(safe key, v1/v2 cut, v1_fits, make_edged_name of kopf c2cffd8, hash suffix as a parameter, ReplicaSet-of-Deployment marking) and of "
+    "store/fetch/purge/touch/clear of the annotations and status storages, of arbitrary Multi storage TREES (proved equal to their flattening) "
+    "and of the diff-base storages over RFC 7386 merge-patches. UNGUARDED (modulo None-valued record keys, which the code drops, a writing "
+    "head leaf, and the covering hypothesis of the status storage = status_cover_witness): round trip (roundtrip_ann/_status/_status_fresh/"
+    "_smart/_diffbase/_diffbase_status/_multi/_multi_apart/_multi_status_head/_dmulti/_dmulti_status_head), complete purge "
     "(purge_complete_ann/_status/_smart/_multi), path-level isolation of store/purge/touch/diff-base store (isolation_*), user data and "
     "other prefixes (foreign_annotation_untouched, other_prefix_untouched), clear of the annotations storage, name stability "
-    "(names_depend_on_kind_and_owners, names_stable). GUARDED (_partial; full statement in a comment; each guard has a witness that is an "
-    "OPEN finding replayed from the corpus): valid names — valid_name_v2_partial/_v1_partial/valid_names_partial under EdgeOk, which "
-    "valid_name_v2_exact proves to be exactly F6, and under IdOk (the property's alphabet plus ':' of kopf's lambda ids: lambda_id_regression = fixed F6i; charset_witness for characters outside it); distinct names — distinct_partial/"
-    "_short_partial (F6b, F6d); 'never disturbs other handlers' at id level — isolation_ids_short_partial/_long_partial/_v1_hashed_partial "
-    "within one length band (F6d incl. ids > 63 via the shared V1 name = safe_form_long_v1_witness, F6b, F6e = forged_witness/"
-    "forged_v1_witness) and off the storages' own names (F6g = marker_witness, reserved_touch_witness, reserved_diffbase_witness; "
+    "(names_depend_on_kind_and_owners, names_stable), and — FULL since kopf c2cffd8 — VALID NAMES: valid_name_v2 / valid_name_v1 / "
+    "valid_names / valid_names_real for EVERY id over the property's alphabet plus ':' (any length, any first/last character, the empty id, "
+    "marked or not), every valid prefix, both v1 settings; the only hypotheses are the alphabet (charset_witness: needed) and the shape of the "
+    "digest suffix at the at most three strings hashed (GoodSfx / RealSfx = '-' + 6 name characters ending alphanumeric; sfx_witness: needed; "
+    "checked by the harness on every suffix the real make_suffix returns). Names that were valid before c2cffd8 do not move: "
+    "edged_id_of_valid, names_unchanged_of_valid (make_keys = the pre-fix make_keys whenever the old names were valid), changed_only_invalid; "
+    "edge_regression = the fixed F6. GUARDED (_partial; full statement in a comment; each guard has a witness that is an OPEN finding "
+    "replayed from the corpus): distinct names — distinct_partial (long ids), distinct_short_partial (ids taken verbatim), "
+    "distinct_reformed_partial (all re-formed ids: long or re-edged) under 'digests differ' (F6b = collision_witness) resp. 'safe forms differ' "
+    "(F6d = safe_form_witness, safe_form_long_v1_witness); forged_exact: a verbatim id shares the name of another id IFF it spells that id's "
+    "generated name (exactly F6e = forged_witness / forged_v1_witness / forged_edged_witness); 'never disturbs other handlers' at id level — "
+    "isolation_ids_short_partial / _reformed_partial / _v1_hashed_partial within one kind of names (both verbatim / both re-formed / both "
+    "verbatim with hashed V1 names), off the storages' own names (F6g = marker_witness, reserved_touch_witness, reserved_diffbase_witness; "
     "name-level: touch_leaves_records, dstore_leaves_records). ORACLE/TIE ONLY (no theorem): 'identical across restarts' (fresh object, "
-    "fresh interpreter with another hash seed, golden names), unicode/JSON codec, statusClear and clear over trees, removeEmptyStanzas "
-    "beyond annotation lookups. Repaired F6c/F6f are regression examples. The model is tied to the real storages by a differential run "
-    "on every check; an independent Python oracle (strict: ids without a record read None, touch and diff-base store change no record) "
-    "decides violations."
+    "fresh interpreter with another hash seed, golden names incl. re-edged ones), unicode/JSON codec, statusClear and clear over trees, "
+    "removeEmptyStanzas beyond annotation lookups. Repaired F6/F6c/F6f/F6i are regression theorems/examples and corpus cases that must pass. "
+    "The model is tied to the real storages by a differential run on every check (scenarios + a dedicated run of make_v1_key/make_v2_key/"
+    "make_keys/make_edged_name on edge-heavy ids); an independent Python oracle (strict: ids without a record read None, touch and "
+    "diff-base store change no record, every generated name matches Kubernetes' qualified-name grammar) decides violations."
 )
-TIE = "D: real storages (real constructors) vs. Lean driver on generated scenarios; hash suffixes passed in from the real make_suffix"
+TIE = ("D: real storages (real constructors) vs. Lean driver on generated scenarios, plus real make_v1_key/make_v2_key/make_keys/make_edged_name "
+       "vs. the model on edge-heavy ids; hash suffixes passed in from the real make_suffix (shape checked on every call)")
 THEOREMS = [
     ("Kopf.Props.C16", "Kopf.C16.roundtrip_ann"),
     ("Kopf.Props.C16", "Kopf.C16.roundtrip_status"),
@@ -92,24 +101,28 @@ THEOREMS = [
     ("Kopf.Props.C16", "Kopf.C16.names_depend_on_kind_and_owners"),
     ("Kopf.Props.C16", "Kopf.C16.names_stable"),
     ("Kopf.Props.C16", "Kopf.C16.status_cover_witness"),
-    ("Kopf.Props.C16_Keys", "Kopf.C16.valid_name_v2_partial"),
-    ("Kopf.Props.C16_Keys", "Kopf.C16.valid_name_v2_exact"),
-    ("Kopf.Props.C16_Keys", "Kopf.C16.valid_name_v1_partial"),
-    ("Kopf.Props.C16_Keys", "Kopf.C16.valid_names_partial"),
-    ("Kopf.Props.C16_Keys", "Kopf.C16.valid_name_marked"),
+    ("Kopf.Props.C16_Keys", "Kopf.C16.valid_name_v2"),
+    ("Kopf.Props.C16_Keys", "Kopf.C16.valid_name_v1"),
+    ("Kopf.Props.C16_Keys", "Kopf.C16.valid_names"),
+    ("Kopf.Props.C16_Keys", "Kopf.C16.valid_names_real"),
+    ("Kopf.Props.C16_Keys", "Kopf.C16.edged_id_of_valid"),
+    ("Kopf.Props.C16_Keys", "Kopf.C16.names_unchanged_of_valid"),
+    ("Kopf.Props.C16_Keys", "Kopf.C16.changed_only_invalid"),
     ("Kopf.Props.C16_Keys", "Kopf.C16.distinct_partial"),
     ("Kopf.Props.C16_Keys", "Kopf.C16.distinct_short_partial"),
+    ("Kopf.Props.C16_Keys", "Kopf.C16.distinct_reformed_partial"),
+    ("Kopf.Props.C16_Keys", "Kopf.C16.forged_exact"),
     ("Kopf.Props.C16_Keys", "Kopf.C16.isolation_ids_short_partial"),
-    ("Kopf.Props.C16_Keys", "Kopf.C16.isolation_ids_long_partial"),
+    ("Kopf.Props.C16_Keys", "Kopf.C16.isolation_ids_reformed_partial"),
     ("Kopf.Props.C16_Keys", "Kopf.C16.isolation_ids_v1_hashed_partial"),
-    ("Kopf.Props.C16_Keys", "Kopf.C16.edge_witness"),
-    ("Kopf.Props.C16_Keys", "Kopf.C16.edge_witness_front"),
+    ("Kopf.Props.C16_Keys", "Kopf.C16.edge_regression"),
     ("Kopf.Props.C16_Keys", "Kopf.C16.sfx_witness"),
     ("Kopf.Props.C16_Keys", "Kopf.C16.collision_witness"),
     ("Kopf.Props.C16_Keys", "Kopf.C16.safe_form_witness"),
     ("Kopf.Props.C16_Keys", "Kopf.C16.safe_form_long_v1_witness"),
     ("Kopf.Props.C16_Keys", "Kopf.C16.forged_witness"),
     ("Kopf.Props.C16_Keys", "Kopf.C16.forged_v1_witness"),
+    ("Kopf.Props.C16_Keys", "Kopf.C16.forged_edged_witness"),
     ("Kopf.Props.C16_Keys", "Kopf.C16.marker_witness"),
     ("Kopf.Props.C16_Keys", "Kopf.C16.reserved_touch_witness"),
     ("Kopf.Props.C16_Keys", "Kopf.C16.reserved_diffbase_witness"),
@@ -119,12 +132,15 @@ THEOREMS = [
 RULE = ("scenario = storage configuration (Annotations/Status/Smart/Multi as TREES: nested and empty Multis, status-headed and annotation-headed, sent to the model as trees, prefix from default / "
         "my-op.example.com / short / long-ish / 54..189 chars, v1 on/off, verbose, custom touch key / fields) x handler id over "
         "[A-Za-z0-9_./<>-]{1,300} (length bands around 63-|prefix|-1, 56, 63 with +-2, sub-handler paths, field suffixes, "
-        "<locals> qualnames, special first/last characters, the storages' own names, kopf's lambda ids) x record (unicode, nulls, partial, empty) x body "
+        "<locals> qualnames, special first/last characters (re-edged names since c2cffd8), the storages' own names, kopf's lambda ids) x record (unicode, nulls, partial, empty) x body "
         "(user annotations, foreign-prefix records, other handlers WITH and WITHOUT records incl. ids sharing a 58+ prefix, safe-form "
-        "variants and forged names, ReplicaSets owned by Deployments, corrupted stanzas); each scenario runs keys/store/fetch/purge/touch/clear "
+        "variants and forged names (the cut-and-hashed or re-edged V2/V1 name of the id spelled as an id), ReplicaSets owned by Deployments, corrupted stanzas); each scenario runs keys/store/fetch/purge/touch/clear "
         "and the diff-base store/fetch through the real code and the model; distinct = distinct abstraction tuple "
         "(storage shape, prefix class, length band, id shape, record flags, body flags); non-trivial = hashed or two-key or "
-        "marked or special-char id, or nulls/unicode in the record, or Multi storage, or pre-existing record")
+        "marked or special-char id, or nulls/unicode in the record, or Multi storage, or pre-existing record. "
+        "keys run: (prefix of 1..189 chars incl. 52..56, id) with the id's first/last character from alnum / each of ._-/<>: / non-ASCII "
+        "alphanumerics (é ١ ß ²), lengths 0, 1..3, around the V1 room and its cut, 55..57, 62..64, long; a bad character placed at the cut "
+        "position; all-special ids; direct make_edged_name calls with crafted names (already-hashed, empty, max_length <= 7 and negative)")
 TRUSTED = [
     "blake2b / base64 (the real make_suffix output is passed to the model as a table; the oracle pins the format by golden names)",
     "json.dumps/json.loads of CPython (the driver re-implements dumps; the theorems assume the round-trip law loads(dumps(x)) = x)",
@@ -141,11 +157,14 @@ ASSUMPTIONS = [
     "json.dumps/json.loads: the theorems use only the instance loads(dumps(x)) = x at the value written; no injective codec is "
     "constructed in Lean (CPython's json is exercised by the tie)",
     "kopf's own lambda ids (':' — outside the property's alphabet) are generated and judged (fixed F6i); other characters outside the alphabet are not generated (charset_witness is Lean-only)",
-    "id-level isolation is proved within one length band only (both ids their own V1 names / both V1-hashed / both V2-hashed); "
-    "across bands an id can spell the hashed name of another (F6e); the oracle checks isolation on every scenario",
+    "id-level isolation is proved within one kind of names only (both ids taken verbatim / both verbatim with hashed V1 names / both re-formed: "
+    "longer than 63 or re-edged); across kinds an id can spell the generated name of another (F6e; forged_exact: nothing else); the oracle "
+    "checks isolation on every scenario",
+    "ids with non-ASCII characters (outside the property's alphabet) enter the keys run for the tie only; their names are judged when the "
+    "foreign characters sit at the edges (where make_edged_name replaces them)",
     "the body given to an operation is the object the patch lands on (no stale view: a purge decided on a stale body without the "
     "record is a no-op), and the patch is applied as ONE atomic merge: the real client splits body and status into two PATCH requests "
-    "when status is a subresource, and the API server rejects the WHOLE body patch (422) when one annotation name is invalid (F6/F6i)",
+    "when status is a subresource, and the API server rejects the WHOLE body patch (422) when one annotation name is invalid (the fixed F6/F6i)",
     "a ReplicaSet keeps or loses its Deployment owner only between cycles; after orphaning/adoption the names switch between k and "
     "k-ofDRS and the old records are neither read nor purged (MarkStable covers one cycle)",
     "'purged completely' is read modulo the <prefix>/kopf-managed marker, the touch annotation and an empty status container",
@@ -162,12 +181,12 @@ SAFE_TABLE = str.maketrans({"/": ".", "<": "_", ">": "_", ":": "_"})   # the ora
 
 SIG_EDGE = {"site": "StorageKeyFormingConvention.make_v2_key", "shape": "name part starts or ends with a non-alphanumeric"}
 SIG_V1LONG = {"site": "StorageKeyFormingConvention.make_v1_key", "shape": "prefix of 55+ chars: v1 name part starts with '-' or exceeds 63"}
-SIG_DIGEST = {"site": "StorageKeyFormingConvention.make_suffix", "shape": "32-bit digest collision: distinct long ids sharing a prefix get the same annotation names"}
+SIG_DIGEST = {"site": "StorageKeyFormingConvention.make_suffix", "shape": "32-bit digest collision: distinct hashed ids sharing their kept characters get the same annotation names"}
 SIG_SAFEFORM = {"site": "StorageKeyFormingConvention.make_safe_key", "shape": "distinct ids with the same safe form share one annotation"}
 SIG_RESERVED = {"site": "AnnotationsProgressStorage/AnnotationsDiffBaseStorage", "shape": "handler id equal to a name the storages use themselves (kopf-managed marker, touch key, diff-base key) under the same prefix"}
 SIG_CHARSET = {"site": "StorageKeyFormingConvention.make_safe_key", "shape": "id character outside [A-Za-z0-9_./<>-] passes into the annotation name (kopf's own lambda ids contain ':')"}
 SIG_V1NEG = {"site": "StorageKeyFormingConvention.make_v1_key", "shape": "negative v1 cut: the v1 name of an id is the v2 name of its safe form"}
-SIG_FORGED = {"site": "StorageKeyFormingConvention.make_v2_key", "shape": "short id equal to the hashed name of a long id shares its annotation"}   # F6e (also the V1 name)
+SIG_FORGED = {"site": "StorageKeyFormingConvention.make_v2_key", "shape": "id equal to the re-formed (cut-and-hashed or re-edged) name of another id is taken verbatim and shares its annotation"}   # F6e (V2 and V1 names)
 
 
 # =============================================================================================
@@ -336,6 +355,8 @@ def sfx_table(ids: Iterable[str]) -> list[list[str]]:
             for x in (v, real_safe(v)):
                 if x not in seen:
                     seen[x] = real_suffix(x)
+    for a, b in seen.items():
+        check_sfx(a, b)
     return [[a, b] for a, b in seen.items()]
 
 
@@ -343,6 +364,60 @@ def pinned_suffix(s: str) -> str:
     """The persisted format, transcribed once (changing it orphans stored state)."""
     d = hashlib.blake2b(s.encode("utf-8"), digest_size=4).digest()
     return ("-" + base64.b64encode(d, altchars=b"-.").decode("ascii")).rstrip("=-.")
+
+
+def pinned_edged(name: str, key: str, max_length: int) -> str:
+    """The persisted format of re-edged names (kopf c2cffd8), transcribed once from the commit: a bad first/last
+    character becomes 'x', and unless the name already carries a digest the digest of the ORIGINAL id is appended."""
+    def ok(c: str) -> bool:
+        return c in ALNUM
+    if name and ok(name[0]) and ok(name[-1]):
+        return name
+    name = name or "x"
+    if not ok(name[0]):
+        name = "x" + name[1:]
+    if not ok(name[-1]):
+        name = name[:-1] + "x"
+    sfx = pinned_suffix(key)
+    if name.endswith(sfx) or name.endswith(pinned_suffix(key.translate(SAFE_TABLE))):
+        return name
+    return name[:max(1, max_length - len(sfx))] + sfx
+
+
+def pinned_v2(k: str) -> str:
+    sfx = pinned_suffix(k) if len(k) > 63 else ""
+    return pinned_edged(k.translate(SAFE_TABLE)[:63 - len(sfx)] + sfx, k, 63)
+
+
+def pinned_v1(prefix: str, k: str) -> str | None:
+    """None when no V1 key is generated for this prefix (kopf e916847: no room for a suffix)."""
+    room = 63 - (len(prefix) + 1)
+    if room <= 7:
+        return None
+    safe = k.translate(SAFE_TABLE)
+    sfx = "" if len(safe) <= room else pinned_suffix(safe)
+    return pinned_edged(safe[:room - len(sfx)] + sfx, k, room)
+
+
+def pinned_parts(k: str, prefix: str, v1: bool) -> list[str]:
+    """name parts (without `prefix/`) an id is expected to live under, per the pinned format"""
+    out = [pinned_v2(k)]
+    n1 = pinned_v1(prefix, k) if v1 else None
+    if n1 is not None and n1 not in out:
+        out.append(n1)
+    return out
+
+
+SFX_SHAPE = re.compile(r"-[A-Za-z0-9._-]{5}[A-Za-z0-9]")
+SFX_BAD: list[list[str]] = []       # suffixes of the real make_suffix outside the contract the theorems assume (RealSfx)
+SFX_SEEN = [0]
+
+
+def check_sfx(x: str, sfx: str) -> None:
+    """the hypothesis `RealSfx` of the validity theorems, checked on every suffix the real code returns"""
+    SFX_SEEN[0] += 1
+    if not SFX_SHAPE.fullmatch(sfx) and len(SFX_BAD) < 5:
+        SFX_BAD.append([x, sfx])
 
 
 def jsonable(x: Any) -> Any:
@@ -466,7 +541,7 @@ def gen_id(rng, plen: int) -> tuple[str, str, str]:
         band, L = "max", rng.choice([299, 300])
     L = max(1, min(300, L))
     shape = rng.choices(["name", "sub", "field", "qual", "rand", "edge", "reserved", "lambda"],
-                        weights=[20, 20, 15, 10, 20, 10, 5, 3])[0]
+                        weights=[20, 20, 15, 10, 20, 14, 5, 3])[0]
     if shape == "lambda":
         # kopf's own id for a lambda (get_callable_id): outside the property's alphabet because of the ':'
         s = "lambda:/" + "/".join(ident(rng, 2, 8) for _ in range(rng.randint(1, 6))) + ".py:%d" % rng.randint(1, 999)
@@ -501,10 +576,11 @@ def gen_id(rng, plen: int) -> tuple[str, str, str]:
         if where in ("last", "both"):
             s = s[:-1] + rng.choice(SPECIAL)
     else:
-        # most ids keep alphanumeric edges, so that the other checks are not drowned by F6 shapes
-        if s[0] not in ALNUM and rng.random() < 0.9:
+        # most ids keep alphanumeric edges (as most real ids do); `_private`, `fn/`, `<locals>.fn` shapes come through here
+        # and through the "edge" shape, and get re-edged names since kopf c2cffd8
+        if s[0] not in ALNUM and rng.random() < 0.8:
             s = rng.choice(LOWER) + s[1:]
-        if s[-1] not in ALNUM and rng.random() < 0.9:
+        if s[-1] not in ALNUM and rng.random() < 0.8:
             s = s[:-1] + rng.choice(LOWER)
     return s, shape, band
 
@@ -809,35 +885,36 @@ def classify_name(full: str, prefix: str, mk: str, which: str, problems: list[st
     return {"site": "make_keys", "shape": "invalid annotation name", "problems": problems, "which": which}
 
 
+def verbatim(x: str) -> bool:
+    """the id is its own V2 name: at most 63 characters, safe form alphanumeric at both ends"""
+    sx = x.translate(SAFE_TABLE)
+    return 0 < len(x) <= 63 and sx[0] in ALNUM and sx[-1] in ALNUM
+
+
 def classify_sharing(mk: str, mo: str, leaves: Iterable[tuple[str, bool]] = ()) -> dict:
     """Two distinct (marked) ids whose records interfere: which known input class is it?
-    `leaves` = (prefix, v1) of the annotation storages involved."""
+    `leaves` = (prefix, v1) of the annotation storages involved. The classes are decided on the names the ids
+    are EXPECTED to live under (the pinned format, not the code under test): interference of two ids that share
+    no expected name is never a known class."""
     sk, so = mk.translate(SAFE_TABLE), mo.translate(SAFE_TABLE)
-    if sk == so and len(mk) <= 63:
-        return SIG_SAFEFORM
-    if len(mk) > 63 and len(mo) > 63 and pinned_suffix(mk) == pinned_suffix(mo) and sk[:56] == so[:56]:
-        return SIG_DIGEST
-    for a, b in ((mk, mo), (mo, mk)):
-        if len(a) <= 63 < len(b) and a.translate(SAFE_TABLE) == b.translate(SAFE_TABLE)[:56] + pinned_suffix(b):
-            return SIG_FORGED
-        # the same with the cut-and-hashed V1 name of b (V1 enabled and room for it under this prefix)
-        sa, sb = a.translate(SAFE_TABLE), b.translate(SAFE_TABLE)
-        for prefix, v1 in leaves:
-            room = 63 - (len(prefix) + 1)
-            if v1 and room > 7 and len(a) <= room < len(b) and sa == sb[:room - 7] + pinned_suffix(sb):
-                return SIG_FORGED
-    if sk == so and len(mk) > 63:
-        # same safe form, both longer than 63: the V2 names differ (digest of the ORIGINAL id), but the V1 name
-        # (digest of the SAFE form) is shared whenever V1 keys are generated: F6d beyond 63 characters
-        for prefix, v1 in leaves:
-            if v1 and len(prefix) + 1 + 7 < 63:
-                return SIG_SAFEFORM
-        # same safe form, both hashed: the v2 names differ; only a negative v1 cut (prefix + '/' + suffix
-        # longer than 63, v1 enabled) that keeps exactly 56 characters makes one id's v1 name the other's v2 name
-        for prefix, v1 in leaves:
-            cut = 63 - (len(prefix) + 1) - 7
-            if v1 and cut < 0 and len(mk) + cut == 56 and (mk == sk or mo == so):
-                return SIG_V1NEG
+    found: list[dict] = []
+    for prefix, v1 in leaves:
+        pk, po = pinned_parts(mk, prefix, v1), pinned_parts(mo, prefix, v1)
+        for n in pk:
+            if n not in po:
+                continue
+            k_verb, o_verb = (n == sk), (n == so)          # the name IS the id's safe form / is re-formed
+            if k_verb and o_verb:
+                found.append(SIG_SAFEFORM)                 # F6d: one safe form, one annotation
+            elif k_verb != o_verb:
+                found.append(SIG_FORGED)                   # F6e: one id spells the re-formed (hashed / re-edged) name of the other
+            elif sk == so:
+                found.append(SIG_SAFEFORM)                 # F6d beyond the own V1 name: the hashed V1 name is the digest of the SAFE form
+            elif {pinned_suffix(mk), pinned_suffix(sk)} & {pinned_suffix(mo), pinned_suffix(so)}:
+                found.append(SIG_DIGEST)                   # F6b: same kept characters, same 32-bit digest
+    for sig in (SIG_SAFEFORM, SIG_FORGED, SIG_DIGEST):
+        if sig in found:
+            return sig
     return {"site": "make_keys", "shape": "distinct handler ids interfere", "class": "unknown"}
 
 
@@ -896,10 +973,16 @@ def run_scenario(sc: dict, out: Out, with_driver: bool = True) -> None:
             tags["invalid"] = tags.get("invalid", 0) + (1 if probs else 0)
         if len(keys) > 1:
             twokeys = True
-        if len(mk) > 63 or len(keys) > 1:
+        part0 = keys[0][len(leaf.prefix) + 1:]
+        if part0 != mk.translate(SAFE_TABLE):
+            tags["reformed"] = True
+        if len(mk) > 63 or len(keys) > 1 or part0 != mk.translate(SAFE_TABLE):
             hashed = True
-            # the persisted format of hashed names is pinned (an upgraded operator must find its records)
+            # the persisted format of re-formed names is pinned (an upgraded operator must find its records):
+            # cut-and-hashed names end with the digest of the id, re-edged ones with that of the id or of its safe form
             sfx_ok = keys[0].endswith(pinned_suffix(mk)) if len(mk) > 63 else True
+            if part0 != mk.translate(SAFE_TABLE) and not (part0.endswith(pinned_suffix(mk)) or part0.endswith(pinned_suffix(mk.translate(SAFE_TABLE)))):
+                sfx_ok = False
             if not sfx_ok:
                 out.fail(f"hashed name {keys[0]!r} does not carry the blake2b-32/base64 suffix {pinned_suffix(mk)!r}",
                          {"site": "make_suffix", "shape": "persisted name format changed"})
@@ -916,9 +999,10 @@ def run_scenario(sc: dict, out: Out, with_driver: bool = True) -> None:
     for i, o in enumerate(others):
         if okinds[i] == "forged":
             # an id equal to the name part generated for k (possible when that name is over the alphabet)
-            cand = own_names[0][len(prefixes[0]) + 1:] if (own_names and len(mk) > 63) else ""
+            # (the re-formed V2 name of k — cut-and-hashed, or re-edged since c2cffd8 — spelled as an id)
+            cand = own_names[0][len(prefixes[0]) + 1:] if (own_names and prefixes and own_names[0][len(prefixes[0]) + 1:] != mk.translate(SAFE_TABLE)) else ""
             if len(own_names) > 1 and own_names[1].startswith(prefixes[0] + "/") and (not cand or len(k) % 2):
-                cand = own_names[1][len(prefixes[0]) + 1:]      # the hashed V1 name of k, spelled as an id
+                cand = own_names[1][len(prefixes[0]) + 1:]      # the hashed / re-edged V1 name of k, spelled as an id
             others[i] = cand if (cand and cand != k and all(c in ALPHABET for c in cand)) else k + "/forged"
     body0 = copy.deepcopy(base)
     writable = True
@@ -939,7 +1023,8 @@ def run_scenario(sc: dict, out: Out, with_driver: bool = True) -> None:
     reserved_ids += [(l.prefix, marked(l.key)) for l in dann]
 
     def reserved(mid: str) -> bool:
-        return any(px in prefixes and (mid == res or (len(mid) <= 63 and len(res) <= 63 and mid.translate(SAFE_TABLE) == res.translate(SAFE_TABLE)))
+        """the id is (or, both taken verbatim, has the safe form of) a name the storages use themselves"""
+        return any(px in prefixes and (mid == res or (verbatim(mid) and verbatim(res) and mid.translate(SAFE_TABLE) == res.translate(SAFE_TABLE)))
                    for px, res in reserved_ids)
 
     def vs_reserved(mid: str) -> dict | None:
@@ -1372,7 +1457,9 @@ def abstraction(sc: dict, tags: dict) -> tuple[str, bool]:
 
 def process(scs: list[dict], with_driver: bool) -> dict:
     """Run scenarios (worker side): implementation + oracle, then the driver, then compare."""
-    res: dict[str, Any] = {"evaluations": 0, "keys": [], "hist": {}, "oracle": [], "tie": [], "comparisons": 0, "samples": [], "driver_error": None}
+    res: dict[str, Any] = {"evaluations": 0, "keys": [], "hist": {}, "oracle": [], "tie": [], "comparisons": 0, "samples": [], "driver_error": None,
+                           "sfx_bad": [], "sfx_seen": 0, "pid": os.getpid()}
+    seen0, bad0 = SFX_SEEN[0], len(SFX_BAD)
 
     def count(g: str, t: Any, n: int = 1) -> None:
         h = res["hist"].setdefault(g, {})
@@ -1387,7 +1474,7 @@ def process(scs: list[dict], with_driver: bool) -> dict:
         res["evaluations"] += 1
         if nontrivial:
             res["keys"].append(key)
-        for g in ("shape", "band", "idshape", "rkind", "drs", "corrupt", "hashed", "twokeys", "others", "legacy", "blank_ids"):
+        for g in ("shape", "band", "idshape", "rkind", "drs", "corrupt", "hashed", "reformed", "twokeys", "others", "legacy", "blank_ids"):
             count(g, out.tags.get(g))
         count("id_length", "%03d-%03d" % (len(sc["id"]) // 20 * 20, len(sc["id"]) // 20 * 20 + 19))
         count("id_edges", ("alnum" if sc["id"][0] in ALNUM else "special") + "/" + ("alnum" if sc["id"][-1] in ALNUM else "special"))
@@ -1411,6 +1498,8 @@ def process(scs: list[dict], with_driver: bool) -> dict:
         for what, rq, im in zip(out.what, out.reqs, out.impl):
             reqs.append(rq)
             metas.append((i, what, im))
+    res["sfx_seen"] = SFX_SEEN[0] - seen0
+    res["sfx_bad"] = SFX_BAD[bad0:]
     if with_driver and reqs:
         try:
             answers = leanio.Driver([ID]).ask(reqs, timeout=3000)
@@ -1465,6 +1554,11 @@ def fold(ctx: Ctx, res: dict) -> None:
                          {"kind": "scenario", "scenario": t["replay"]["scenario"], "request": t["request"], "impl": t["impl"], "model": t["model"]})
     if res["driver_error"]:
         ctx.tie_fail("Lean driver failed: " + res["driver_error"]["msg"], res["driver_error"])
+    ctx.count("suffix_contract", "checked (scenarios)", res.get("sfx_seen", 0))
+    if res.get("pid") == os.getpid():
+        ctx.extra["_sfx_main_scen"] = ctx.extra.get("_sfx_main_scen", 0) + res.get("sfx_seen", 0)
+    for x, sfx in res.get("sfx_bad", [])[:3]:
+        ctx.tie_fail(f"make_suffix({x!r}) = {sfx!r} is outside the shape the validity theorems assume (RealSfx)", {"kind": "suffix", "string": x, "suffix": sfx})
 
 
 def run_pool(ctx: Ctx, total: int, with_driver: bool, tagbase: str) -> None:
@@ -1498,8 +1592,22 @@ def run_case(ctx: Ctx, data: dict, with_driver: bool = True) -> None:
         blankpair_case(ctx, data)
     elif kind == "reserved":
         reserved_case(ctx, data)
+    elif kind == "names-request":
+        names_request_case(ctx, data)
     else:
         raise ValueError(f"unknown corpus/replay kind {kind!r}")
+
+
+def ask_compare(ctx: Ctx, items: list[tuple[str, Any, Any, Any]]) -> None:
+    """(what, implementation answer, driver request, replay) — compared now, or, during the corpus pass of run(), in
+    ONE driver call at its end (every driver start costs ~0.4 s)"""
+    pending = ctx.extra.get("_pending")
+    if pending is not None:
+        pending.extend(items)
+        return
+    outs = ctx.driver.ask([rq for _, _, rq, _ in items])
+    for (what, im, _, replay), ans in zip(items, outs):
+        ctx.compare(what, im, ans, replay)
 
 
 def names_case(ctx: Ctx, data: dict) -> None:
@@ -1520,8 +1628,7 @@ def names_case(ctx: Ctx, data: dict) -> None:
             ctx.oracle_fail(f"invalid Kubernetes annotation name {full!r} for id {k!r} ({','.join(probs)})",
                             {"kind": "names", **{x: data[x] for x in data if x != "kind"}},
                             classify_name(full, s.prefix, mk, "v2" if i == 0 else "v1", probs))
-    out = ctx.driver.ask([["C16.keys", {"prefix": s.prefix, "v1": bool(s.v1)}, sfx_table([k]), bool(data.get("drs")), k]])
-    ctx.compare("C16 keys", ["ok", keys], out[0], data)
+    ask_compare(ctx, [("C16 keys", ["ok", keys], ["C16.keys", {"prefix": s.prefix, "v1": bool(s.v1)}, sfx_table([k]), bool(data.get("drs")), k], data)])
 
 
 def pair_case(ctx: Ctx, data: dict) -> None:
@@ -1552,10 +1659,8 @@ def pair_case(ctx: Ctx, data: dict) -> None:
     elif len(a) > 63 and len(b) > 63 and a[:58] == b[:58] and ka[0] == kb[0]:
         ctx.oracle_fail(f"distinct long ids sharing a prefix get the same annotation name {ka[0]!r}", replay,
                         classify_sharing(a, b, [(s.prefix, bool(s.v1))]))
-    outs = ctx.driver.ask([["C16.keys", {"prefix": s.prefix, "v1": bool(s.v1)}, sfx_table([a]), False, a],
-                           ["C16.keys", {"prefix": s.prefix, "v1": bool(s.v1)}, sfx_table([b]), False, b]])
-    ctx.compare("C16 keys", ["ok", ka], outs[0], replay)
-    ctx.compare("C16 keys", ["ok", kb], outs[1], replay)
+    ask_compare(ctx, [("C16 keys", ["ok", ka], ["C16.keys", {"prefix": s.prefix, "v1": bool(s.v1)}, sfx_table([a]), False, a], replay),
+                      ("C16 keys", ["ok", kb], ["C16.keys", {"prefix": s.prefix, "v1": bool(s.v1)}, sfx_table([b]), False, b], replay)])
 
 
 def golden_case(ctx: Ctx, data: dict) -> None:
@@ -1594,8 +1699,7 @@ def blankpair_case(ctx: Ctx, data: dict) -> None:
     if got != ["ok", None]:
         ctx.oracle_fail(f"handler {b!r} never stored a record but reads {got!r} (the record of {a!r}: it would count as already succeeded)",
                         replay, classify_sharing(a, b, [(s.prefix, bool(s.v1))]))
-    outs = ctx.driver.ask([["C16.fetch", describe_tree(s), sfx_table([b]), body, b]])
-    ctx.compare("C16 fetch", jsonable(got), outs[0], replay)
+    ask_compare(ctx, [("C16 fetch", jsonable(got), ["C16.fetch", describe_tree(s), sfx_table([b]), body, b], replay)])
 
 
 def reserved_case(ctx: Ctx, data: dict) -> None:
@@ -1655,10 +1759,9 @@ def status_cover_case(ctx: Ctx, data: dict) -> None:
         ctx.tie_fail("status storage no longer merges a record over an older one as the model (and the witness theorem) says",
                      {"kind": "status-cover", **{x: data[x] for x in data if x != "kind"}, "got": got})
     desc = describe_tree(s)
-    outs = ctx.driver.ask([["C16.store", desc, sfx_table([data["id"]]), body, {}, data["id"], [[k, v] for k, v in data["new"].items()]],
-                           ["C16.fetch", desc, sfx_table([data["id"]]), merged, data["id"]]])
-    ctx.compare("C16 store", ["ok", jsonable(dict(p))], outs[0], data)
-    ctx.compare("C16 fetch", ["ok", got], outs[1], data)
+    ask_compare(ctx, [("C16 store", ["ok", jsonable(dict(p))],
+                       ["C16.store", desc, sfx_table([data["id"]]), body, {}, data["id"], [[k, v] for k, v in data["new"].items()]], data),
+                      ("C16 fetch", ["ok", got], ["C16.fetch", desc, sfx_table([data["id"]]), merged, data["id"]], data)])
 
 
 def restart_check(ctx: Ctx, n: int) -> None:
@@ -1715,14 +1818,210 @@ def birthday(ctx: Ctx, n: int) -> None:
         pair_case(ctx, {"kind": "pair", "prefix": "kopf.zalando.org", "a": a, "b": b})
 
 
+# ---- keys run: make_v1_key / make_v2_key / make_keys / make_edged_name on edge-heavy ids -------------------
+EDGE_CHARS = "._-/<>:"
+NONASCII = "é١ß²"          # alphanumeric for str.isalnum(), not ASCII: `_is_alnum` of make_edged_name says no
+
+
+def char_class(c: str) -> str:
+    return "alnum" if c in ALNUM else ("nonascii" if not c.isascii() else c)
+
+
+def gen_edge_id(rng, plen: int) -> tuple[str, dict]:
+    """an id built to stress make_edged_name; → (id, tags)"""
+    room = 62 - plen                      # 63 - len(prefix + '/'): what is left for the V1 name
+    lclass = rng.choices(["empty", "tiny", "v1-cut", "v1-room", "56", "63", "mid", "long", "allspecial"],
+                         weights=[2, 14, 12, 14, 12, 18, 10, 12, 6])[0]
+    L = {"empty": 0, "tiny": rng.randint(1, 3), "v1-cut": room - 7 + rng.randint(-1, 1), "v1-room": room + rng.randint(-1, 1),
+         "56": rng.randint(55, 57), "63": rng.randint(62, 64), "mid": rng.randint(4, 61), "long": rng.choice([65, 70, 100, 299, 300]),
+         "allspecial": rng.randint(1, 70)}[lclass]
+    L = max(0 if lclass == "empty" else 1, min(300, L))
+    if lclass == "allspecial":
+        k = "".join(rng.choice(EDGE_CHARS) for _ in range(L))
+    else:
+        k = "".join(rng.choice(ALPHABET + ":") for _ in range(L))
+        # words, as real ids have
+        if L > 6 and rng.random() < 0.5:
+            k = (ident(rng, 1, 10) + rng.choice("/._") + "/".join(ident(rng, 2, 12) for _ in range(40)))[:L]
+    how = "as-is"
+    if k and lclass != "allspecial":
+        r = rng.random()
+        first = rng.choice(EDGE_CHARS) if r < 0.55 else (rng.choice(NONASCII) if r < 0.65 else rng.choice(ALNUM))
+        r = rng.random()
+        last = rng.choice(EDGE_CHARS) if r < 0.55 else (rng.choice(NONASCII) if r < 0.65 else rng.choice(ALNUM))
+        k = (first + k[1:]) if len(k) > 1 else first
+        if len(k) > 1:
+            k = k[:-1] + last
+        how = "edges-set"
+    cut = "none"
+    r = rng.random()
+    if r < 0.35 and len(k) > 63:
+        k = k[:55] + rng.choice(EDGE_CHARS) + k[56:]          # the V2 cut (56) leaves a bad character before the suffix
+        cut = "v2-cut-bad"
+    elif r < 0.6 and room - 8 >= 1 and len(k) > room:
+        k = k[:room - 8] + rng.choice(EDGE_CHARS) + k[room - 7:]   # the same for the V1 cut
+        cut = "v1-cut-bad"
+    elif r < 0.7 and len(k) > 2:
+        k = k[0] + rng.choice(EDGE_CHARS) + k[2:]             # second character bad as well
+        cut = "second-bad"
+    return k, {"length_class": lclass, "cut": cut, "how": how}
+
+
+def name_path(part: str, mk: str, limit: int) -> str:
+    """which way the name part was formed, read off the REAL result (for the histogram only)"""
+    safe = mk.translate(SAFE_TABLE)
+    if part == safe:
+        return "verbatim"
+    if len(safe) > limit:
+        return "hashed" if part[:1] == safe[:1] else "hashed+x-head"
+    fixed = safe or "x"
+    fixed = fixed if fixed[0] in ALNUM else "x" + fixed[1:]
+    fixed = fixed if fixed[-1] in ALNUM else fixed[:-1] + "x"
+    if part == fixed:
+        return "re-edged-already-hashed"        # only the edges replaced: the name already ended with a digest of the id
+    return "re-edged" if part == fixed + pinned_suffix(mk) else "re-edged-cut"
+
+
+def keys_tie(ctx: Ctx, n: int) -> None:
+    import random
+    conventions, progress, _, bodies, _ = _kopf()
+    ctx.extra["_keys_round"] = ctx.extra.get("_keys_round", 0) + 1
+    rng = random.Random(f"keys-{ctx.seed}-{ctx.extra['_keys_round']}")
+    drs_body = {"kind": "ReplicaSet", "metadata": {"ownerReferences": [{"kind": "Deployment"}]}}
+    reqs: list[Any] = []
+    impl: list[Any] = []
+    what: list[str] = []
+    for i in range(n):
+        plen = rng.choice([1, 4, 16, 16, 16, 17, 30, 45, 52, 53, 54, 55, 56, 60, 63, 100, 189])
+        p = "kopf.zalando.org" if (plen == 16 and rng.random() < 0.7) else mk_prefix(rng, plen)
+        k, tags = gen_edge_id(rng, plen)
+        v1 = rng.random() < 0.75
+        drs = rng.random() < 0.2
+        with warnings.catch_warnings():
+            warnings.simplefilter("ignore")
+            st = progress.AnnotationsProgressStorage(prefix=p, v1=v1)
+        mk = k + "-ofDRS" if drs else k
+        body = bodies.Body(drs_body if drs else {"metadata": {}})
+        keys = list(st.make_keys(k, body=body))
+        tbl = sfx_table([k])
+        reqs.append(["C16.keys", {"prefix": p, "v1": v1}, tbl, drs, k]); impl.append(["ok", keys]); what.append("make_keys")
+        reqs.append(["C16.v2key", {"prefix": p}, tbl, k]); impl.append(["ok", st.make_v2_key(k)]); what.append("make_v2_key")
+        # make_v1_key directly, also where make_keys would not call it (no room: zero / negative cut, max_length <= 7)
+        reqs.append(["C16.v1key", {"prefix": p}, tbl, k]); impl.append(["ok", st.make_v1_key(k)]); what.append("make_v1_key")
+        # make_edged_name directly with a crafted name
+        key2 = k
+        nm = rng.choice(["", "_", "a", ".", "-x", "x-", k[:rng.randint(0, 12)],
+                         real_safe(k)[:rng.randint(0, 10)] + rng.choice([real_suffix(k), real_suffix(real_safe(k)), "-abc", "."]),
+                         rng.choice(EDGE_CHARS) + real_suffix(k), real_suffix(real_safe(k)), real_suffix(k)[:-1] + "."])
+        ml = rng.choice([-5, 0, 1, 6, 7, 8, 9, 20, 63])
+        edged = getattr(st, "make_edged_name", None)
+        if edged is not None:
+            got = edged(nm, key=key2, max_length=ml)
+            reqs.append(["C16.edged", tbl, nm, key2, ml]); impl.append(["ok", got]); what.append("make_edged_name")
+            ctx.count("keys_edged_direct_path", "untouched" if got == nm else
+                      ("already hashed: edges replaced only" if len(got) == max(1, len(nm)) and got[1:-1] == nm[1:-1] else
+                       ("suffix appended, cut to 1 (max_length <= 8)" if len(got) == 8 and ml <= 8 else "suffix appended")))
+        elif not any(f.kind == "tie" and "make_edged_name" in f.what for f in ctx.failures):
+            ctx.tie_fail("StorageKeyFormingConvention.make_edged_name (kopf c2cffd8), which the model mirrors, is gone", {"kind": "missing", "attr": "make_edged_name"})
+        # ---- bookkeeping + oracle (validity, own prefix, determinism, old names kept) ----
+        first_c = char_class(k[0]) if k else "none"
+        last_c = char_class(k[-1]) if k else "none"
+        ctx.count("keys_first_char", first_c)
+        ctx.count("keys_last_char", last_c)
+        ctx.count("keys_length_class", tags["length_class"])
+        ctx.count("keys_cut_position", tags["cut"])
+        ctx.count("keys_prefix_length", plen)
+        ctx.count("keys_id_length", "%03d-%03d" % (len(k) // 10 * 10, len(k) // 10 * 10 + 9) if len(k) < 70 else "070+")
+        if len(k) in (62, 63, 64) and (first_c != "alnum" or last_c != "alnum"):
+            ctx.count("keys_boundary_bad_edge", len(k))
+        part2 = keys[0][len(p) + 1:]
+        ctx.count("keys_v2_path", name_path(part2, mk, 63))
+        if len(keys) > 1:
+            ctx.count("keys_v1_path", name_path(keys[1][len(p) + 1:], mk, 62 - plen))
+        else:
+            ctx.count("keys_v1_path", "none (v1 off)" if not v1 else ("none (no room)" if plen >= 55 else "same as v2"))
+        nontrivial = part2 != mk.translate(SAFE_TABLE) or len(keys) > 1
+        ctx.case(key=["keys", plen if 50 <= plen <= 57 else plen // 20, tags["length_class"], tags["cut"], first_c, last_c, v1, drs,
+                      name_path(part2, mk, 63), len(keys)], nontrivial=nontrivial,
+                 sample={"prefix": p, "v1": v1, "drs": drs, "id": k, "names": keys} if i < 2 else None)
+        replay = {"kind": "names", "prefix": p, "v1": v1, "id": k, "drs": drs}
+        middle_ok = all(c in ALPHABET + ":" for c in mk[1:-1]) and (len(mk) <= 63 or mk[-1] in ALPHABET + ":")
+        if list(st.make_keys(k, body=body)) != keys:
+            ctx.oracle_fail(f"annotation names differ between two calls: {keys}", replay, {"site": "make_keys", "shape": "non-deterministic names"})
+        for j, full in enumerate(keys):
+            if not full.startswith(p + "/"):
+                ctx.oracle_fail(f"generated name {full!r} is not under the storage prefix {p!r}", replay,
+                                {"site": "make_keys", "shape": "name outside the own prefix"})
+                continue
+            probs = name_problems(full)
+            if probs and middle_ok:
+                ctx.oracle_fail(f"invalid Kubernetes annotation name {full!r} for id {k!r} ({'v2' if j == 0 else 'v1'}; {','.join(probs)})",
+                                replay, classify_name(full, p, mk, "v2" if j == 0 else "v1", probs))
+            ctx.count("keys_names_judged", "valid" if not probs else ("invalid (foreign characters inside the id)" if not middle_ok else "INVALID"))
+        # names that were valid before c2cffd8 are still the names (nothing persisted is orphaned)
+        sfx2 = pinned_suffix(mk) if len(mk) > 63 else ""
+        old2 = mk.translate(SAFE_TABLE)[:63 - len(sfx2)] + sfx2
+        if not name_problems(p + "/" + old2) and part2 != old2:
+            ctx.oracle_fail(f"the valid annotation name {p + '/' + old2!r} of id {k!r} (kopf before c2cffd8) became {keys[0]!r}", replay,
+                            {"site": "make_keys", "shape": "recorded annotation names changed (persisted state would be orphaned)"})
+    answers = ctx.driver.ask(reqs, timeout=3000)
+    for w, rq, im, ans in zip(what, reqs, impl, answers):
+        ctx.count("keys_ops", w)
+        ctx.compare(f"C16 {w}", im, ans, {"kind": "names-request", "request": rq})
+    ctx.traces += len(reqs)
+
+
+def names_request_case(ctx: Ctx, data: dict) -> None:
+    """replay of one comparison of the keys run"""
+    conventions, progress, _, bodies, _ = _kopf()
+    rq = data["request"]
+    op = rq[0]
+    with warnings.catch_warnings():
+        warnings.simplefilter("ignore")
+        if op == "C16.edged":
+            st = progress.AnnotationsProgressStorage(prefix="kopf.zalando.org")
+            im = st.make_edged_name(rq[2], key=rq[3], max_length=rq[4])
+        else:
+            st = progress.AnnotationsProgressStorage(prefix=rq[1]["prefix"], v1=rq[1].get("v1", True))
+            if op == "C16.keys":
+                body = {"kind": "ReplicaSet", "metadata": {"ownerReferences": [{"kind": "Deployment"}]}} if rq[3] else {"metadata": {}}
+                im = list(st.make_keys(rq[4], body=bodies.Body(body)))
+            else:
+                im = (st.make_v2_key if op == "C16.v2key" else st.make_v1_key)(rq[3])
+    ctx.case(key={"names-request": op}, nontrivial=True)
+    out = ctx.driver.ask([rq])
+    ctx.compare(f"C16 {op}", ["ok", im], out[0], data)
+
+
+def report_sfx(ctx: Ctx) -> None:
+    ctx.count("suffix_contract", "checked (keys run, corpus cases)", SFX_SEEN[0] - ctx.extra.pop("_sfx_main_scen", 0))
+    for x, sfx in SFX_BAD:
+        ctx.tie_fail(f"make_suffix({x!r}) = {sfx!r} is outside the shape the validity theorems assume (RealSfx: '-' + 6 name characters, "
+                     "the last one alphanumeric)", {"kind": "suffix", "string": x, "suffix": sfx})
+
+
 def run(ctx: Ctx) -> None:
     # corpus first
+    ctx.extra["_pending"] = []
+    scen: list[dict] = []
     for name, data in sorted(__import__("harness.core", fromlist=["load_corpus"]).load_corpus(ID)):
         ctx.count("corpus_files", name)
-        run_case(ctx, data)
+        if data.get("kind") == "scenario":
+            scen.append(data["scenario"])
+        else:
+            run_case(ctx, data)
+    pending = ctx.extra.pop("_pending")
+    if pending:
+        ask_compare(ctx, pending)
+    if scen:
+        fold(ctx, process(scen, True))
     restart_check(ctx, 150 if ctx.tier == "quick" else 1500)
     birthday(ctx, 1 << 18 if ctx.tier == "quick" else 1 << 20)
+    for _ in range(1 if ctx.tier == "quick" else 8):
+        keys_tie(ctx, ctx.budget(2000, 5000))
     run_pool(ctx, ctx.budget(5000, 200000), True, "gen")
+    report_sfx(ctx)
+    ctx.extra.pop("_keys_round", None)
     ctx.extra["oracle_failures_by_signature"] = ctx.extra.pop("_per_signature", {})
 
 
